@@ -1,0 +1,16 @@
+//go:build verif
+
+package ivg
+
+import (
+	"fmt"
+	"hash/fnv"
+)
+
+// VerifSharedHash is a verification hook (build tag "verif", add-only): a hash
+// of this package's package-level variables, which no operation may write.
+func VerifSharedHash() uint64 {
+	h := fnv.New64a()
+	fmt.Fprint(h, MagicBytes, DefaultViewBox, DefaultPalette, DefaultMetadata, dc1Table)
+	return h.Sum64()
+}
